@@ -151,6 +151,9 @@ def all_configs():
 
 
 QUICK_CONFIGS = ["dev-std-base", "rel-std-base", "rel-nostd-sse41", "dev-nostd-avx2", "rel-std-native", "dev-nostd-base"]
+# one configuration per model class (arch/std/compile-time features), both profiles for the default one
+MATRIX_CONFIGS = ["dev-std-base", "rel-std-base", "rel-nostd-base", "dev-std-sse41", "rel-nostd-sse41", "dev-nostd-avx2", "rel-std-avx2",
+                  "dev-std-sse41noavx", "rel-nostd-sse41noavx", "rel-std-native"]
 
 
 def ensure_repo_link():
